@@ -187,14 +187,22 @@ def signature(c, fam, detail, mline, iline):
     return sig
 
 
+def gen():
+    """Gen/*.v files this property regenerates from /repo's current tree"""
+    return {"Gen/RollTableGen.v": roll_table.generate(vlib.REPO)}
+
+
+DRIVERS = [("roll", "Roll")]
+
+
 def run(tier, replay=None):
     rep = vlib.Report("C09", "proof", tier, "cd coq && make Properties/C09.vo  (coqc 8.16.1, full .vo build)")
     rng = vlib.SplitMix64(vlib.seed() * 1000003 + 9)
     table = ctable.parse_array(open(os.path.join(vlib.REPO, "rolling_hash/rolling_hash2_table.h")).read(),
                                "rolling_hash2_table1")
-    ok, broken = vlib.coq_step(rep, "C09", {"Gen/RollTableGen.v": roll_table.generate(vlib.REPO)})
+    ok, broken = vlib.coq_step(rep, "C09", gen(), extract="Roll")
     impl_exe = vlib.cc_harness("roll", ["roll_drv.c", "vcpuid.S"], "hook")
-    model_exe = vlib.ocaml_driver("roll")
+    model_exe = vlib.ocaml_driver("roll", "Roll")
     # when an obligation is broken the L0 oracle is the pinned-table spec (the property's
     # "fixed function ... across library versions"), and the search is larger
     model_args = ("pinned",) if not ok else ()
